@@ -154,8 +154,13 @@ func hasFeatureWithID(id b6.FeatureID, fbs []*featureBlock) bool {
 	for _, fb := range fbs {
 		ns, ok := fb.NamespaceTable.MaybeEncode(id.Namespace)
 		if ok && ns == fb.Namespaces[id.Type] {
-			_, ok := fb.Map.FindFirst(id.Value)
-			return ok
+			// Several blocks can share a namespace once more than one index
+			// has been merged, so keep looking if this one doesn't have the id.
+			// An entry that only records the paths and relations referencing
+			// a point isn't a feature, see newPhysicalFeatureFromTagged.
+			if t, ok := fb.Map.FindFirst(id.Value); ok && !(id.Type == b6.FeatureTypePoint && t.Tag == PointTagReferencesOnly) {
+				return true
+			}
 		}
 	}
 	return false
